@@ -67,6 +67,21 @@ def cases(tier, seed):
                 combos = rng.sample(combos, 60 if tier == 'quick' else 2500)
             for rs in combos:
                 add(' ~> '.join((l,) + rs), doc, ('chain',))
+    # composed functions are values: bound to a variable, extended several times, each extension used afterwards.
+    # stage i maps x to 10x+i, so the digits of the result spell the order in which the stages ran
+    def stage(i): return 'function($x){$x * 10 + %d}' % i
+    for k in range(1, 7):
+        for ext in range(1, 4):
+            for el in (1, 2):
+                base = ' ~> '.join(stage(i + 1) for i in range(k))
+                exts = []
+                d = 7
+                for j in range(ext):
+                    exts.append('$e%d := $base ~> %s' % (j, ' ~> '.join(stage((d + j * el + t) % 10) for t in range(el))))
+                calls = ', '.join(['$e%d(0)' % j for j in range(ext)] + ['$base(0)'] + ['$e%d(5)' % j for j in reversed(range(ext))])
+                add('($base := %s; %s; [%s])' % (base, '; '.join(exts), calls), doc, ('chain', 'chain-values'))
+                add('($s1 := %s; $base := %s; %s; [%s])' % (stage(1), ' ~> '.join(['$s1'] * k), '; '.join(exts), calls), doc, ('chain', 'chain-values'))
+    add('($f := $uppercase ~> $substring(?, 0, 2); $g := $f ~> $length; $h := $f ~> $lowercase; [$f("hello"), $g("hello"), $h("hello")])', doc, ('chain', 'chain-values'))
     add('($f := $uppercase ~> $substring(?, 0, 2); $f("hello"))', doc, ('chain',)); add('(4 ~> $power(2)) = $power(4, 2)', doc, ('chain',))
     # context-defaulting built-ins nested in each other's arguments under different contexts
     ctxfns = [('$string()', 'x'), ('$length()', 's'), ('$substringBefore("-")', 's'), ('$substringAfter("-")', 's'), ('$uppercase()', 's'), ('$substring(1)', 's'),
